@@ -25,6 +25,7 @@ import (
 	"errors"
 	"fmt"
 	"reflect"
+	"runtime"
 	"strconv"
 	"strings"
 	"time"
@@ -32,6 +33,7 @@ import (
 
 	"github.com/alibaba/sentinel-golang/core/base"
 	cb "github.com/alibaba/sentinel-golang/core/circuitbreaker"
+	"github.com/alibaba/sentinel-golang/util"
 	"github.com/alibaba/sentinel-golang/util/verifhook"
 	"verifharness/internal/sched"
 	"verifharness/internal/vh"
@@ -44,6 +46,34 @@ const intervalMs = 1000000000
 //
 //go:linkname getBreakersOfResource github.com/alibaba/sentinel-golang/core/circuitbreaker.getBreakersOfResource
 func getBreakersOfResource(resource string) []cb.CircuitBreaker
+
+// yclock is the case's virtual clock with one more yield point: when the clock is read from the breaker's retry check
+// (a method of circuitBreakerBase other than the deadline store) the value is taken first and then the caller yields
+// (`cb.x.clock`), so that other threads can run between that clock read and the deadline load that follows it.
+type yclock struct{ *vh.Clock }
+
+func (c yclock) CurrentTimeMillis() uint64 {
+	v := c.Clock.CurrentTimeMillis()
+	if inRetryCheck() {
+		verifhook.Yield("cb.x.clock")
+	}
+	return v
+}
+
+func inRetryCheck() bool {
+	var pcs [10]uintptr
+	n := runtime.Callers(3, pcs[:])
+	frames := runtime.CallersFrames(pcs[:n])
+	for {
+		f, more := frames.Next()
+		if strings.Contains(f.Function, "circuitbreaker.(*circuitBreakerBase).") {
+			return !strings.HasSuffix(f.Function, ".updateNextRetryTimestamp")
+		}
+		if !more {
+			return false
+		}
+	}
+}
 
 type call struct {
 	tryPass bool
@@ -104,6 +134,7 @@ type Interp struct {
 func New() vh.Interp {
 	vh.Silence()
 	it := &Interp{clk: vh.NewClock(1900000000000)}
+	util.SetClock(yclock{it.clk})
 	if err := cb.SetCircuitBreakerGenerator(customStrategy, func(r *cb.Rule, _ interface{}) (cb.CircuitBreaker, error) {
 		verifhook.Yield("cb.x.rebuild")
 		return &passBreaker{r}, nil
@@ -136,7 +167,7 @@ func stc(s cb.State) string {
 
 var points = map[string]string{
 	"cb.state.get": "sg", "cb.state.set": "ss", "cb.state.cas": "sc", "cb.retry.load": "rl", "cb.retry.store": "rs",
-	"cb.probe.add": "pa", "cb.probe.reset": "pr", "cb.probe.load": "pl", "cb.x.reload": "rd", "cb.x.rebuild": "rb",
+	"cb.probe.add": "pa", "cb.probe.reset": "pr", "cb.probe.load": "pl", "cb.x.reload": "rd", "cb.x.rebuild": "rb", "cb.x.clock": "ck",
 }
 
 func tf(b bool) string {
